@@ -259,6 +259,13 @@ func cmdCheck(args []string) int {
 			fmt.Println("ENGINE-ERROR:", err)
 			return 2
 		}
+		for _, r := range pool.Results {
+			for _, c := range r.Checks {
+				if c.Status != "pass" {
+					r.Dirty = true
+				}
+			}
+		}
 		if u.Only != "" || len(u.OnlySuffix) > 0 {
 			for _, r := range pool.Results {
 				var keep []interp.CheckResult
@@ -395,7 +402,7 @@ func cmdCheck(args []string) int {
 		if nt := envInt("GOSYM_TWINS", map[string]int{"quick": 3, "thorough": 8}[tier]); nt > 0 && !u.SameEmits {
 			var cand []*interp.PathResult
 			for _, r := range pool.Results {
-				if r.Outcome != "ok" || len(r.Checks) == 0 {
+				if r.Outcome != "ok" || len(r.Checks) == 0 || r.Dirty {
 					continue
 				}
 				clean := true
